@@ -60,6 +60,10 @@ def wbxml_cases(tj, rng, forcings_per_doc=None):
             docs.append(("txt-unterminated", wdoc(3, b"\0" + mb(0), 106, t, body), l["id"]))
             docs.append(("txt-latin1", wdoc(3, b"\0" + mb(0), 4, t + b"\0", body), None))          # no converter: model/C only
             docs.append(("txt-tail", wdoc(3, b"\0" + mb(1), 106, t + b"\0", body), "err"))         # index 1: the id without its first character
+            # a proper prefix of the identifier (incl. the empty string) and the identifier with something appended are other strings
+            for k in sorted(set([0, 1, len(t) // 2, len(t) - 1, rng.range(1, len(t) - 1)])):
+                docs.append(("txt-prefix%d" % k, wdoc(3, b"\0" + mb(0), 106, t[:k] + b"\0", body), "err"))
+            docs.append(("txt-extended", wdoc(3, b"\0" + mb(0), 106, t + rng.choice([b"X", b" ", b"/EN"]) + b"\0", body), "err"))
         docs.append(("none", wdoc(3, b"\x01", 106, b"", body), "err"))
         docs.append(("num-unknown", wdoc(3, mb(rng.choice([0x7E, 0x2000, 0x0F, 0x11, 0xFD0])), 106, b"", body), "err"))
         docs.append(("txt-unknown", wdoc(3, b"\0" + mb(0), 106, b"-//NO//SUCH//EN\0", body), "err"))
@@ -83,6 +87,43 @@ def wbxml_cases(tj, rng, forcings_per_doc=None):
                 bytes([3, 0]) + b"\x8f\xff\xff\xff\x7f" + b"\x6a\x04abc\0\x05", bytes([3, 5, 0, 0, 5])):
         for meta in (0, 3, 4):
             cases.append(dict(line="w 0 %d %s" % (meta, bad.hex()), oracle=None, kind="wbxml-malformed", lang=0, route="malformed", forced=0))
+    return cases
+
+
+def reuse_cases(tj, rng):
+    """one WBXMLParser object parses two documents in a row: the second must be judged on its own
+    (numeric id then string-table id, string-table id then numeric id, id then nothing, ...)"""
+    cases = []
+    langs = tj["langs"]
+    num = [l for l in langs if l["pub_num"] != 1]
+    txt = [l for l in langs if l["pub_text"] is not None]
+
+    def ndoc(l):
+        return wdoc(3, mb(l["pub_num"]), 106, b"", body_for(tj, l))
+
+    def tdoc(l, s=None):
+        return wdoc(3, b"\0" + mb(0), 106, (s if s is not None else l["pub_text"].encode()) + b"\0", body_for(tj, l))
+    none = wdoc(3, b"\x01", 106, b"", b"\x05")
+    unk_t = tdoc(langs[0], b"-//NO//SUCH//EN")
+    unk_n = wdoc(3, mb(0x7E), 106, b"", b"\x05")
+
+    def add(kind, d1, w1, d2, w2, lang):
+        o = lambda w: "err" if w is None else "ok %d" % w["id"]
+        cases.append(dict(line="r 0 0 %s %s" % (d1.hex(), d2.hex()), oracle="%s ; %s" % (o(w1), o(w2)), kind=kind, lang=lang, route=kind, forced=0))
+    for l in num:
+        for o in [x for x in txt if x["id"] != l["id"]]:
+            add("reuse-num-then-txt", ndoc(l), l, tdoc(o), o, l["id"])
+        add("reuse-num-then-unknown-txt", ndoc(l), l, unk_t, None, l["id"])
+        add("reuse-num-then-none", ndoc(l), l, none, None, l["id"])
+        o = rng.choice([x for x in num if x["id"] != l["id"]])
+        add("reuse-num-then-num", ndoc(l), l, ndoc(o), o, l["id"])
+    for l in txt:
+        o = rng.choice([x for x in num if x["id"] != l["id"]])
+        add("reuse-txt-then-num", tdoc(l), l, ndoc(o), o, l["id"])
+        add("reuse-txt-then-unknown-num", tdoc(l), l, unk_n, None, l["id"])
+        add("reuse-txt-then-none", tdoc(l), l, none, None, l["id"])
+        o = rng.choice([x for x in txt if x["id"] != l["id"]])
+        add("reuse-txt-then-txt", tdoc(l), l, tdoc(o), o, l["id"])
     return cases
 
 
@@ -204,7 +245,14 @@ def xml_cases(tj, rng):
             add("xml-nsroot", l, xml, local, None, None, want)
             xml, local = xml_for(root, ns=ns0.swapcase())
             add("xml-nsroot-case", l, xml, local, None, None, want)
-    # a namespaced root whose namespace is the first entry of no table: recognised by its root element? (MetInf)
+    # a namespaced root whose namespace opens no table is recognised by the local name of its root element
+    # (fix 8a5d5ba: <MetInf xmlns="syncml:metinf">, DRMREL o-ex:rights, and any foreign namespace)
+    for l in langs:
+        loc = l["root"].rsplit(":", 1)[-1]
+        want = first(x for x in langs if x["root"].rsplit(":", 1)[-1] == loc)
+        want = pinned(tj, "root", l["root"], want)
+        xml, local = xml_for(loc, ns="urn:no-such-namespace")
+        add("xml-local-root-foreign-ns", l, xml, local, None, None, want)
     for l in langs:
         if l["root"] == "MetInf":
             xml, local = xml_for("MetInf", ns="syncml:metinf")
